@@ -131,9 +131,13 @@ package memdb
 //@   safety off
 //@   ensures [C02,C14:facing-backward-after-a-backward-move] (old(i.err) == nil && i.err == nil) ==> !i.forward
 //@   ensures [C02,C14:prev-stays-off-the-backward-end] (old(i.err) == nil && i.err == nil && old(i.node) == 0 && !old(i.forward)) ==> (!result && i.node == 0)
+// (C14, readers concurrent with the writer: the entry under the cursor is read out of the arena while the read lock
+// is held - a writer that overwrites the key in between would otherwise hand the reader a key and a value length that do
+// not belong together, i.e. a pair that was never stored)
 //@ func (*dbIter).fill
 //@   props C14 C02
 //@   safety off
+//@   requires [C14:the-entry-is-read-under-the-read-lock] rheld(i.p.mu) >= 1
 //@   ensures [C02,C14:positioned-means-the-nodes-own-key] result ==> (i.node == old(i.node) && i.node != 0 && sameslice(i.key, i.p.kvData[i.p.nodeData[i.node] : i.p.nodeData[i.node] + i.p.nodeData[i.node+1]]))
 //@   ensures [C02,C14:off-the-end-means-no-key] !result ==> (i.node == 0 && isnil(i.key) && isnil(i.value))
 //@   modifies i.node, i.key, i.value
